@@ -1324,12 +1324,17 @@ func convertDateFormat(format string) string {
 		"s": "05", // Seconds with leading zeros
 	}
 
-	result := format
-	for phpFormat, goFormat := range replacements {
-		result = strings.ReplaceAll(result, phpFormat, goFormat)
+	// Translate each format letter exactly once, left to right
+	var result strings.Builder
+	for i := 0; i < len(format); i++ {
+		if goFormat, ok := replacements[format[i:i+1]]; ok {
+			result.WriteString(goFormat)
+		} else {
+			result.WriteByte(format[i])
+		}
 	}
 
-	return result
+	return result.String()
 }
 
 // Additional filter implementations
